@@ -176,6 +176,10 @@ def judge(prop, rep, binary, scripts, work, replay, acc):
             key = f"panic:{ev.get('who')}-server@{ev.get('at', '').split(':')[0]}:{b['class']}"
             summary = (f"the {ev.get('who')} server died at {ev.get('at')} ({ev.get('msg', '')[:200]}); "
                        f"editor text {show(editor)}")
+        elif "answer-differs" in why and ev.get("kind") == "closedFileSymbols":
+            key = "diverge:closed-file-rewritten-on-disk"
+            summary = ("documentSymbol of a file that is not open, after it was rewritten on disk and the server was told "
+                       "(workspace/didChangeWatchedFiles), differs from the answer of a server given that text in a didOpen")
         elif "answer-differs" in why:
             key = f"diverge:{b['class']}"
             summary = (f"{b['kind']} answer of the server fed didOpen + {sum(1 for e in runs[ri][: b['pos']] if e['a'] == 'Change')} "
